@@ -82,26 +82,25 @@ theorem hourOfDay_of_whole_hour (m : Int) : hourOfDay (3600 * m) = m % 24 := by
   unfold hourOfDay; omega
 
 theorem fromDailyVolume_get (start : Int) (n : Nat) (vol : Rat) (hours : List Int) (i : Nat) (hi : i < n) :
-    (fromDailyVolume start n vol hours)[i]? =
+    (fromDailyVolumeCore start n vol hours)[i]? =
       some (start + 3600 * (i : Int),
             if hours.contains (hourOfDay (start + 3600 * (i : Int))) then vol / (hours.length : Rat) else 0) := by
-  unfold fromDailyVolume fromFrequency
+  unfold fromDailyVolumeCore fromFrequency
   simp [hi, matchesAt]
 
-/-- **`create_hourly_usage_from_daily_volume_and_list_of_hours`**: for duplicate-free hours within
-0..23 (the hypothesis the proof needs — finding D12 otherwise), a series starting on a whole hour
-carries exactly the daily volume on any 24 consecutive hours it contains, in particular on every
-full calendar day -/
-theorem dailyVolume_sum_full_day (q : Int) (n : Nat) (vol : Rat) (hours : List Int)
+/-- the spreading, for duplicate-free hours within 0..23 (the hypothesis the proof needs): a series
+starting on a whole hour carries exactly the daily volume on any 24 consecutive hours it contains, in
+particular on every full calendar day -/
+theorem dailyVolumeCore_sum_full_day (q : Int) (n : Nat) (vol : Rat) (hours : List Int)
     (hnd : hours.Nodup) (hrange : ∀ h ∈ hours, 0 ≤ h ∧ h < 24) (hne : hours ≠ [])
     (i0 : Nat) (hwin : i0 + 24 ≤ n) :
     ((List.range 24).map (fun (j : Nat) =>
-        (((fromDailyVolume (3600 * q) n vol hours)[i0 + j]?).map Prod.snd).getD 0)).sum = vol := by
+        (((fromDailyVolumeCore (3600 * q) n vol hours)[i0 + j]?).map Prod.snd).getD 0)).sum = vol := by
   have hlen : (hours.length : Rat) ≠ 0 := by
     have : 0 < hours.length := List.length_pos_iff.mpr hne
     exact_mod_cast (Nat.pos_iff_ne_zero.mp this)
   have hval : ∀ j ∈ List.range 24,
-      (((fromDailyVolume (3600 * q) n vol hours)[i0 + j]?).map Prod.snd).getD 0
+      (((fromDailyVolumeCore (3600 * q) n vol hours)[i0 + j]?).map Prod.snd).getD 0
         = if hours.contains (((q + (i0 : Int)) + (j : Int)) % 24) then vol / (hours.length : Rat) else 0 := by
     intro j hj
     have hj' : j < 24 := List.mem_range.mp hj
@@ -112,6 +111,44 @@ theorem dailyVolume_sum_full_day (q : Int) (n : Nat) (vol : Rat) (hours : List I
   rw [List.map_congr_left hval]
   rw [full_day_sum (q + (i0 : Int)) hours hnd hrange (vol / (hours.length : Rat))]
   field_simp
+
+theorem validHours_spec (hours : List Int) (h : validHours hours = true) :
+    hours.Nodup ∧ (∀ x ∈ hours, 0 ≤ x ∧ x < 24) ∧ hours ≠ [] := by
+  unfold validHours at h
+  simp only [Bool.and_eq_true, Bool.not_eq_true', decide_eq_true_eq, List.all_eq_true, List.isEmpty_eq_false_iff] at h
+  exact ⟨h.1.2, fun x hx => h.2 x hx, h.1.1⟩
+
+/-- **`create_hourly_usage_from_daily_volume_and_list_of_hours`, for every list of hours**: either the call is
+refused (a repeated hour, an hour outside 0..23, no hour at all — finding D12 before its repair: such lists
+silently lost a share of the volume) or every 24 consecutive hours of the series, in particular every full
+calendar day, carry exactly the daily volume -/
+theorem dailyVolume_sum_full_day (q : Int) (n : Nat) (vol : Rat) (hours : List Int) (i0 : Nat) (hwin : i0 + 24 ≤ n) :
+    fromDailyVolume (3600 * q) n vol hours = .error (.other "invalid-hours") ∨
+    ∃ s, fromDailyVolume (3600 * q) n vol hours = .ok s ∧
+      ((List.range 24).map (fun (j : Nat) => ((s[i0 + j]?).map Prod.snd).getD 0)).sum = vol := by
+  unfold fromDailyVolume
+  by_cases hv : validHours hours = true
+  · right
+    obtain ⟨hnd, hrange, hne⟩ := validHours_spec hours hv
+    exact ⟨_, by simp [hv], dailyVolumeCore_sum_full_day q n vol hours hnd hrange hne i0 hwin⟩
+  · left; simp [hv]
+
+/-- a repeated hour or an hour outside 0..23 is refused -/
+theorem invalid_hours_refused (start : Int) (n : Nat) (vol : Rat) (hours : List Int)
+    (h : ¬ hours.Nodup ∨ ∃ x ∈ hours, x < 0 ∨ 24 ≤ x) :
+    fromDailyVolume start n vol hours = .error (.other "invalid-hours") := by
+  unfold fromDailyVolume
+  have : validHours hours = false := by
+    by_contra hc
+    have hv : validHours hours = true := by simpa using hc
+    obtain ⟨hnd, hrange, _⟩ := validHours_spec hours hv
+    rcases h with h | ⟨x, hx, hx2⟩
+    · exact h hnd
+    · have := hrange x hx; omega
+  simp [this]
+
+example : fromDailyVolume 0 48 120 [8, 8, 9] = .error (.other "invalid-hours") := by decide +kernel
+example : fromDailyVolume 0 48 120 [5, 24] = .error (.other "invalid-hours") := by decide +kernel
 
 /-! ## calendar facts used by the predicates -/
 
